@@ -97,19 +97,20 @@ def rmWalk (P : Prim σ) : Nat → Str → σ → σ × Out
     | (s1, .err e) => (s1, .err e)
     | (s1, .ok infos) => rmEntries P (rmWalk P fuel) d infos s1
 
-/-- `FS.removetree` after `_dir_path = abspath(normpath(dir_path))`: the walk, then — unless the path is
+/-- `FS.removetree` after `_dir_path = self.validatepath(dir_path)`: the walk, then — unless the path is
 the root — `self.removedir(dir_path)` with the RAW argument -/
 def removetreeBody (P : Prim σ) (fuel : Nat) (s : σ) (p np : Str) : σ × Out :=
   match rmWalk P fuel np s with
   | (s1, .ok _) => if np = ['/'] then (s1, .ok .unit) else P.removedir s1 p
   | r => r
 
-/-- `FS.removetree(dir_path)`: no `check()`, no `validatepath` of its own — the first `scandir` of the
-walker does both -/
+/-- `FS.removetree(dir_path)`: `_dir_path = self.validatepath(dir_path)` like every other method (since /repo
+433aea4; before, `abspath(normpath(dir_path))` — an invalid character in a component that `..` cancels was never
+seen, and a closed filesystem reported IllegalBackReference first) -/
 def removetree (P : Prim σ) (fuel : Nat) (s : σ) (p : Str) : σ × Out :=
-  match normRes p with
-  | .err e => (s, .err e)
-  | .ok np => removetreeBody P fuel s p np
+  match P.validatepath s p with
+  | (s1, .err e) => (s1, .err e)
+  | (s1, .ok np) => removetreeBody P fuel s1 p np
 
 /-! ### `copy_dir` (fs/copy.py): `copy_structure`, then every file through `copy_file_internal` -/
 
